@@ -158,3 +158,30 @@ func symBytes(name string) *sym.Term { return sym.Sym(sym.Bytes, name) }
 func symLen(name string) *sym.Term   { return sym.Sym(sym.Int, "len("+name+")") }
 
 var fnZero = sym.Const(sym.Fn, bigInt(0))
+
+// termDiff descends into two terms of the same shape and renders the smallest differing subterms.
+func termDiff(a, b *sym.Term) string {
+	a, b = sym.Canon(a), sym.Canon(b)
+	for depth := 0; depth < 200; depth++ {
+		if a == b {
+			return "identical"
+		}
+		if a.Op != b.Op || len(a.Args) != len(b.Args) || len(a.Args) == 0 {
+			break
+		}
+		var da, db *sym.Term
+		n := 0
+		for i := range a.Args {
+			if a.Args[i] != b.Args[i] {
+				da, db = a.Args[i], b.Args[i]
+				n++
+			}
+		}
+		if n == 0 {
+			break
+		}
+		// descend into the last differing argument
+		a, b = da, db
+	}
+	return clip(a.String(), 400) + "   VERSUS   " + clip(b.String(), 400)
+}
